@@ -257,6 +257,45 @@ def tlc_model(module, cfg, workers=NCPU, heap="12g", timeout=1500, env=None, ext
             "violated": violated, "log": lg, "coverage": cov, "wall_s": round(time.time() - t0, 1)}
 
 
+def tlc_sharded_check(module, cfg, total_shards, run_shards, env_extra=None, timeout=1500, heap="3g"):
+    """Run an invariant check that is sharded by environment (CHK_SHARD / CHK_NSHARDS): one TLC process per shard.
+    Returns the dict tlc_model returns (summed)."""
+    jobs, metas, logs = [], [], []
+    for s in run_shards:
+        md = new_metadir()
+        metas.append(md)
+        lg = os.path.join(OUT, "tlc", "%s-shard%d.log" % (module.replace(".tla", ""), s))
+        logs.append(lg)
+        env = {"CHK_SHARD": str(s), "CHK_NSHARDS": str(total_shards)}
+        if env_extra:
+            env.update(env_extra)
+        jobs.append((tlc_cmd(module, cfg, metadir=md, heap=heap), env, lg, timeout))
+    t0 = time.time()
+    rcs = run_parallel(jobs)
+    for md in metas:
+        shutil.rmtree(md, ignore_errors=True)
+    states = gen = 0
+    violated = []
+    for lg, rc in zip(logs, rcs):
+        txt = open(lg).read()
+        if rc is None:
+            raise Broken("TLC %s timed out (%s)" % (module, lg))
+        violated += re.findall(r"Error: Invariant (\S+) is violated", txt)
+        m = None
+        for line in txt.splitlines():
+            mm = STATS_RE.match(line)
+            if mm:
+                m = mm
+        if m is None or (rc != 0 and not violated):
+            raise Broken("TLC %s failed (rc=%s)\n%s" % (module, rc, txt[-2000:]))
+        gen += int(m.group(1))
+        states += int(m.group(2))
+    log("sharded check %s: %d/%d shards, %d states, %.1fs%s" % (module, len(run_shards), total_shards, states, time.time() - t0,
+                                                             " VIOLATED %s" % violated if violated else ""))
+    return {"module": module, "cfg": "%s [%d of %d shards]" % (cfg, len(run_shards), total_shards), "states": states, "transitions": gen,
+            "ok": not violated, "violated": violated, "coverage": {}, "wall_s": round(time.time() - t0, 1), "log": logs[0]}
+
+
 def tlc_emit(module, cfg, marker, workers=NCPU, heap="8g", timeout=900, cache_deps=None, tag=None):
     """Run TLC and collect the JSON payloads printed as <<"MARKER", "<json>">> (behaviours generated from a Layer-2 model).
     With cache_deps the result is cached under out/cases keyed by the hash of those spec files."""
